@@ -213,8 +213,23 @@ def ownProp (k : Name) : Option (CVal → Option CVal) :=
     some some      -- settable, never generated
   else none
 
+/-- settable properties of `Command` (params.py:369-398) -/
+def cmdProp (k : Name) : Option (CVal → Option CVal) :=
+  if k = "visibility" then some (validate visibilityEnum)
+  else if k = "group" then some (validate (.string 0 unlimited.toNat false))
+  else if k = "description" then some (validate (.string 0 unlimited.toNat true))
+  else if k = "export" then some (fun v => match validate .bool v with
+    | some b => some b
+    | none => validate (.string 0 unlimited.toNat false) v)
+  else if k = "influences" || k = "argument" || k = "result" || k = "datatype" then some some      -- never generated
+  else none
+
+/-- a string or a number which is no member of the `visibility` enum: `ValueError` → `ProgrammingError` -/
+def cmdRaises (k : Name) (v : CVal) : Bool :=
+  k == "visibility" && (match v with | .str _ => true | .num _ => true | _ => false)
+
 def ops : Ops CDT CVal :=
   { convert := convert, validate := validate, setProp := setProp, checkDT := checkDT, dtDefault := dtDefault,
-    ownProp := ownProp, limitDT := limitDT, limitDefault := limitDefault }
+    ownProp := ownProp, cmdProp := cmdProp, cmdRaises := cmdRaises, limitDT := limitDT, limitDefault := limitDefault }
 
 end Frappy.ConfigDT
